@@ -374,7 +374,32 @@ def check(prop, tier, replay=None):
         write_json(p, obj)
         return p
 
-    failures = result.get("failures", [])
+    failures = list(result.get("failures", []))
+    # ---- escalated search: a proof obligation or the correspondence broke but the quick
+    # generators exhibited no failing input: run the driver's deepest generators on the
+    # implementation alone to look for one (DESIGN.md section 3)
+    pre_broken = bool(proof["broken"] or proof["discharged"] != proof["obligations"] or proof["obligations"] == 0
+                      or corr.get("error") or corr.get("mismatches"))
+    escalated = None
+    if pre_broken and harness_ok and drv_ok and tier == "quick" and not replay and \
+            not [f for f in failures if not known_match(prop, f.get("sig"), known)]:
+        work2 = os.path.join(work, "search")
+        os.makedirs(work2, exist_ok=True)
+        cmd = [os.path.join(BIN, "drive"), prop, "--tier", "thorough", "--seed", str(seed), "--out", work2]
+        rc, out = run(cmd, cwd=work2, timeout=cfg.get("timeout_search", 900), extra_env={"VERIF_DIR": VERIF, "VERIF_REPO": REPO})
+        L("== escalated search rc", rc)
+        L(out[-4000:])
+        rp2 = os.path.join(work2, "result.json")
+        escalated = {"ran": True, "rc": rc, "found": 0}
+        if rc == 0 and os.path.exists(rp2):
+            r2 = json.load(open(rp2))
+            extra = [f for f in r2.get("failures", []) if not known_match(prop, f.get("sig"), known)]
+            escalated["found"] = len(extra)
+            escalated["evaluations"] = r2.get("evaluations", 0)
+            failures += extra
+        for fn in os.listdir(work2):
+            if fn.startswith("cases_"):
+                os.remove(os.path.join(work2, fn))
     seen_known = set()
     unknown_failures = []
     for f in failures:
@@ -445,6 +470,8 @@ def check(prop, tier, replay=None):
     }
     for k, v in result.get("extra", {}).items():
         cov[k] = v
+    if escalated:
+        cov["escalated_search"] = escalated
     ev = {
         "property_id": prop,
         "tier": tier,
